@@ -34,6 +34,10 @@ fn main() {
         cyphermon::capi_parity::worker(&argv[1..]);
         return;
     }
+    if id == "C34-miri" {
+        cyphermon::capi_parity::miri_script();
+        return;
+    }
     if id == "C10-worker" {
         concmon::handles::worker(&argv[1]);
         return;
